@@ -47,6 +47,10 @@ CHECKS.update({
  'C15': ('symbolic execution of the real EUI-64 helpers over byte-structured symbolic integers (all 2^128 addresses, all 2^48 MACs x networks), and of parse_host_port/escape_ipv6 over symbolic hosts and ports; netaddr replaced by integer-semantics contract stubs',
          'Bit formulas checked against byte-wise references for every value; host names of 1..3 (5) symbolic characters, every port and default port. urlsplit/params are outside the claim.'),
 })
+CHECKS.update({
+ 'C20': ('symbolic execution of the real file helpers above contract stubs of the OS layer: errno, file size, read chunk size and seek offset are symbolic integers, contents uninterpreted; re-raise decisions, returned slices and hasher updates decided by z3',
+         'Every errno 1..200; sizes up to 2^40 (last_bytes: num up to 2^41); checksum: size <= 4 (8) x chunk size. The real filesystem, mkstemp uniqueness and hashlib are outside the claim (stubs / streaming contract).'),
+})
 NA = {
 }
 def main():
